@@ -131,6 +131,14 @@ fn neighbours(ctx: &mut Ctx, p: &MPos) {
             check_raw(ctx, &q, "nb_two_kings");
         }
     }
+    // one side with two kings and the other with none (the total number of kings stays two)
+    for white in [true, false] {
+        let mut q = p.clone();
+        if let Some(k) = q.king_sq(!white) {
+            q.sq[k as usize] = man(white, b'K');
+            check_raw(ctx, &q, "nb_kings_one_sided");
+        }
+    }
     // pawn on a back rank
     for _ in 0..2 {
         let mut q = p.clone();
@@ -187,8 +195,31 @@ fn neighbours(ctx: &mut Ctx, p: &MPos) {
     ctx.rng = rng;
 }
 
+/// Exhaustive: a pawn of either colour on each of the 16 back-rank squares of a few valid positions.
+fn edge_pawns(ctx: &mut Ctx) {
+    for base in ["8/2p5/4k3/8/8/4K3/2P5/8 w - - 0 1", "8/2p5/4k3/8/8/4K3/2P5/8 b - - 0 1", "4k3/8/8/8/8/8/8/4K3 w - - 0 1"] {
+        let p = mfen::from_fen(base).unwrap();
+        for r in [0u8, 7] {
+            for f in 0..8u8 {
+                for pawn in [b'P', b'p'] {
+                    let mut q = p.clone();
+                    if kind(q.at(sq(f, r))) == b'K' {
+                        continue;
+                    }
+                    q.sq[sq(f, r) as usize] = pawn;
+                    check_raw(ctx, &q, "exh_edge_pawns");
+                }
+            }
+        }
+    }
+    ctx.exhaustive_parts.push("a pawn of either colour on each of the 16 back-rank squares".into());
+}
+
 pub fn run(ctx: &mut Ctx) {
     let heavy = ctx.config != "miri";
+    if ctx.shard == 0 {
+        edge_pawns(ctx);
+    }
     // fixed corners and their neighbours
     for (i, p) in gen::fixed_positions().iter().enumerate() {
         if ctx.mine(i as u64) {
